@@ -43,6 +43,7 @@ type gen struct {
 	uses   map[string]bool
 	loop   int      // index into cfg.Fuel
 	ctx    []string // enclosing "range" / "fuel" / "fuel+post" / "switch" statements
+	recv   string   // Go name of the receiver when the method is threaded (sig.threaded), else ""
 	al     *aliases
 }
 
@@ -160,8 +161,10 @@ func level(s string) int {
 				l = 30
 			case "==", "!=", "<", ">", "≤", "≥":
 				l = 50
-			case "+", "-", "*", "++":
+			case "+", "-", "++":
 				l = 65
+			case "*", "/", "%":
+				l = 70
 			}
 			if l < lv {
 				lv = l
@@ -257,16 +260,22 @@ func (g *gen) expr0(e ast.Expr, want string) (code, typ string, act bool) {
 		g.fail(e, "unknown identifier %s", e.Name)
 	case *ast.SelectorExpr:
 		x, xt := g.expr(e.X, "")
-		if ft := g.p.fieldType(xt, e.Sel.Name); ft != "" {
+		if ft := g.p.valueField(xt, e.Sel.Name); ft != "" {
+			if g.p.isStruct(ft) {
+				g.uses[strings.TrimPrefix(ft, "*")] = true
+			}
 			return x + "." + e.Sel.Name, ft, false // pointers are never nil in the model (see REPORT)
 		}
 		g.fail(e, "selector %s on type %s", e.Sel.Name, xt)
 	case *ast.IndexExpr:
 		x, xt := g.expr(e.X, "")
 		switch {
-		case xt == "map[string]string":
+		case xt == "map[string]string" || xt == "map[string]bool":
 			k, kt := g.expr(e.Index, "string")
 			g.unify(e, kt, "string")
+			if xt == "map[string]bool" {
+				return "(Rt.bmapGet " + x + " " + k + ")", "bool", false
+			}
 			return "(Rt.mapGet " + x + " " + k + ")", "string", false
 		case xt == "string" || strings.HasPrefix(xt, "[]"):
 			i, it := g.expr(e.Index, "int")
@@ -376,9 +385,13 @@ func (g *gen) binary(e *ast.BinaryExpr) (string, string, bool) {
 			return "(" + opnd(l, 65) + " ++ " + opnd(r, 65) + ")", t, false
 		}
 		fallthrough
-	case token.SUB, token.MUL: // Int is unbounded: no 64-bit wrap-around (see REPORT)
-		if num {
+	case token.SUB, token.MUL: // Int is unbounded: no 64-bit wrap-around (see REPORT); UInt8 wraps like Go's byte
+		if num || t == "byte" {
 			return "(" + opnd(l, 65) + " " + e.Op.String() + " " + opnd(r, 65) + ")", t, false
+		}
+	case token.REM, token.QUO: // only unsigned (no rounding question) and by a non-zero literal (no division panic)
+		if lit, ok := e.Y.(*ast.BasicLit); ok && t == "byte" && lit.Kind == token.INT && strings.Trim(lit.Value, "0_xXoObB") != "" {
+			return "(" + opnd(l, 70) + " " + e.Op.String() + " " + opnd(r, 70) + ")", t, false
 		}
 	case token.EQL, token.NEQ:
 		if num || t == "string" || t == "byte" || t == "bool" || t == "untyped rune" {
@@ -418,7 +431,7 @@ func (g *gen) composite(e *ast.CompositeLit) (string, string) {
 				g.fail(el, "struct literal without field names")
 			}
 			f := typeStr(kv.Key)
-			ft := g.p.fieldType(t, f)
+			ft := g.p.valueField(t, f)
 			if ft == "" {
 				g.fail(el, "field %s of %s is not translated", f, t)
 			}
@@ -502,6 +515,15 @@ func (g *gen) call(e *ast.CallExpr) (string, string, bool) {
 				if xt == "string" || strings.HasPrefix(xt, "[]") {
 					return "(Rt.len " + x + ")", "int", false
 				}
+				if xt == "map[string]bool" {
+					return "(Rt.bmapLen " + x + ")", "int", false
+				}
+			}
+		case "string": // string(b) of a byte is the UTF-8 encoding of the code point b (two bytes from 0x80 on)
+			if len(e.Args) == 1 {
+				if x, xt := g.expr(e.Args[0], "byte"); xt == "byte" {
+					return "(Rt.byteString " + x + ")", "string", false
+				}
 			}
 		case "append": // value semantics of append is justified by alias.go
 			if len(e.Args) >= 1 {
@@ -527,12 +549,19 @@ func (g *gen) call(e *ast.CallExpr) (string, string, bool) {
 		case "make":
 			if len(e.Args) >= 1 {
 				t := typeStr(e.Args[0])
-				if t == "map[string]string" && len(e.Args) <= 2 {
+				if (t == "map[string]string" || t == "map[string]bool") && len(e.Args) <= 2 {
 					return "(some [])", t, false
 				}
-				if lit, ok := e.Args[len(e.Args)-1].(*ast.BasicLit); strings.HasPrefix(t, "[]") && g.p.leanType(t) != "" &&
-					len(e.Args) == 2 && ok && lit.Value == "0" {
-					return "[]", t, false
+				if strings.HasPrefix(t, "[]") && g.p.leanType(t) != "" && (len(e.Args) == 2 || len(e.Args) == 3) {
+					if lit, ok := e.Args[1].(*ast.BasicLit); ok && lit.Value == "0" { // length 0; a capacity is evaluated, then ignored
+						if len(e.Args) == 3 { // a negative capacity would panic: only len(…) is accepted
+							if c, ok := e.Args[2].(*ast.CallExpr); !ok || typeStr(c.Fun) != "len" {
+								break
+							}
+							g.expr(e.Args[2], "int")
+						}
+						return "[]", t, false
+					}
 				}
 			}
 		default:
@@ -575,6 +604,9 @@ func (g *gen) call(e *ast.CallExpr) (string, string, bool) {
 			b, _ := g.lookup(x.Name)
 			key := strings.TrimPrefix(b.typ, "*") + "." + f.Sel.Name
 			if s := g.p.sigs[key]; s != nil && g.p.isStruct(b.typ) {
+				if s.threaded {
+					g.fail(e, "%s mutates its receiver: it can only be called as a statement, on the method's own receiver", key)
+				}
 				return g.callListed(e, s, f.X)
 			}
 		}
@@ -589,17 +621,31 @@ func (g *gen) callListed(e *ast.CallExpr, s *sig, recv ast.Expr) (string, string
 	if recv != nil {
 		actual = append([]ast.Expr{recv}, actual...)
 	}
-	if len(actual) != len(s.params) || e.Ellipsis.IsValid() {
+	n := len(s.params)
+	pack := s.variadic && !e.Ellipsis.IsValid() // f(a, b, c) packs the extra arguments, f(a, xs...) passes xs itself
+	if pack && len(actual) < n-1 || !pack && len(actual) != n || e.Ellipsis.IsValid() && !s.variadic {
 		g.fail(e, "call of %s with %d arguments", s.lean, len(actual))
 	}
 	code := s.lean
 	if s.ext {
 		code += " ext"
 	}
+	var rest []string
 	for i, a := range actual {
-		c, t := g.expr(a, s.params[i].typ)
-		g.unify(a, t, s.params[i].typ)
-		code += " " + c
+		want := s.params[min(i, n-1)].typ
+		if pack && i >= n-1 {
+			want = want[2:]
+		}
+		c, t := g.expr(a, want)
+		g.unify(a, t, want)
+		if pack && i >= n-1 {
+			rest = append(rest, strip(c))
+		} else {
+			code += " " + c
+		}
+	}
+	if pack {
+		code += " [" + strings.Join(rest, ", ") + "]"
 	}
 	typ := "()"
 	switch len(s.results) {
